@@ -70,7 +70,7 @@ func New(path string, opts ...Option) (*SQLiteStore, error) {
 		// Use shared cache mode for in-memory databases to allow multiple connections.
 		// Each store gets its own named database so that separately created
 		// in-memory stores do not share events.
-		dsn = fmt.Sprintf("file:ebu-memdb-%d?mode=memory&cache=shared", memDBCounter.Add(1))
+		dsn = fmt.Sprintf("file:ebu-memdb-%d?mode=memory&cache=shared&_pragma=read_uncommitted(1)", memDBCounter.Add(1))
 	} else {
 		dsn = fmt.Sprintf("file:%s?_busy_timeout=%d", cfg.path, cfg.busyTimeout.Milliseconds())
 	}
